@@ -30,13 +30,28 @@ fn main() {
         std::process::exit(2);
     }
     let mut c = Check::new("C15", args.tier, "model_checking");
-    c.rule = "DFS over every interleaving (bounded depth) of device chunks (1, 3, 4096 bytes; also delivered while a blocking read waits, with every chunk size) and driver calls recv(peek), recv(pop), read(1|5), fill_buf+consume(0|1|all), read_ready, ack_interrupt, send, send_bytes, embedded-io Write::write (2 and 4097 bytes, empty), write_all (8193 bytes), fmt::Write::write_str; the device stream is 1,2,3,... so loss, duplication and reordering are visible. distinct = distinct observation signatures".into();
+    c.rule = "DFS over every interleaving (bounded depth) of device chunks (1, 3, 4096 bytes; also delivered while a blocking read waits, with every chunk size) and driver calls recv(peek), recv(pop), read(1|5), fill_buf+consume(0|1|all), read_ready, ack_interrupt, send, send_bytes, embedded-io Write::write (2 and 4097 bytes, empty), write_all (8193 bytes), fmt::Write::write_str, plus a sweep of fmt::Write::write_char over every Unicode scalar value and formatted output with character arguments and fill characters; the device stream is 1,2,3,... so loss, duplication and reordering are visible. distinct = distinct observation signatures".into();
     for (t, d) in parts(args.tier) {
         let part = format!("console:{}:depth={}", t.name(), d);
         let mut cfg = DfsConfig::new(&part, 0);
         cfg.wall_cap = Duration::from_secs(if args.tier == Tier::Quick { 40 } else { 2400 });
         let st = dfs::explore(&cfg, &move || c15::run(t, d));
         c.add_dfs(&part, &st);
+    }
+    // fmt::Write: every Unicode scalar value through write_char, and formatted output that passes
+    // characters (arguments, fill characters).
+    {
+        let (n, v) = match vlab::util::catch(|| c15::sweep_fmt(TKind::Model)) {
+            Ok(r) => r,
+            Err(p) => {
+                c.machinery_error(format!("fmt-write sweep: harness panic: {}", p));
+                (0, vec![])
+            }
+        };
+        c.add_sweep("fmt-write: write_char for all 1112064 Unicode scalar values and formatted output with character arguments and non-ASCII fill", n, n, true, vlab::util::J::obj());
+        for (k, d) in v {
+            c.add_violation(vlab::engine::Violation::new("C15", k, d.clone()), "fmt-write", vlab::util::J::obj().set("kind", vlab::util::J::s("case")).set("case", vlab::util::J::s(d)), vec![]);
+        }
     }
     c.finish();
 }
